@@ -2,18 +2,25 @@
    handlers of control.rs / init.rs as scripts over its primitives), the two output-forwarding
    threads, and the run loop.  Definitions only; proofs are in ProofsDapWire.v.
 
+   Line numbers refer to /repo at commit ae66bdd (after the two repairs 90c36fc "sequence
+   numbers taken under the transport lock" and ae66bdd "requests could be answered twice").
+   The two repaired behaviours are parameters of the model, instantiated from the generated
+   constants of BS.Gen.Dap; the old behaviour stays available (guard = false / send_block)
+   for the theorems that document what was wrong.
+
    What is NOT modelled (assumptions, see REPORT.md):
    - transport writes succeed (write_message returns Ok) and the mutex is never poisoned;
    - server_seq is an unbounded N (the AtomicI64 wraps after 2^63 messages);
    - message payloads (JSON bodies) are abstracted to a small code + one integer. *)
 From BS Require Import Model.Base.
+From BS Require Import Gen.Dap.
 Local Open Scope N_scope.
 
 (* ================================================================== *)
 (* 1. The wire                                                        *)
 (* ================================================================== *)
 
-(* protocol.rs:21-44.  A response echoes req.seq and req.command (mod.rs:458-466). *)
+(* protocol.rs:21-44.  A response echoes req.seq and req.command (mod.rs:459-469). *)
 Inductive body : Type :=
 | Response (request_seq : Z) (command : N) (success : bool)
 | Event (ev : N) (arg : Z).
@@ -65,8 +72,8 @@ Inductive ievent : Type :=
 | IOutput
 | IProgressStart | IProgressUpdate | IProgressEnd | IInvalidated | ICapabilities.
 
-(* what send_events (mod.rs:280-427) writes for one queued event; Exited and Terminated are
-   skipped there (mod.rs:359-361) *)
+(* what send_events (mod.rs:278-425) writes for one queued event; Exited and Terminated are
+   skipped there (mod.rs:357-359) *)
 Definition ievent_body (e : ievent) : option body :=
   match e with
   | IStopped => Some (Event EV_STOPPED 0)
@@ -87,44 +94,47 @@ Definition ievent_body (e : ievent) : option body :=
   | ICapabilities => Some (Event EV_CAPABILITIES 0)
   end.
 
-(* mod.rs:28-56, the fields the messaging layer reads or writes; [wire] is what the
+(* mod.rs:28-58, the fields the messaging layer reads or writes; [wire] is what the
    transport has received so far, oldest first. *)
 Record st : Type := St {
-  server_seq : N;              (* :30, AtomicI64 initialised to 1 (:99) *)
+  server_seq : N;              (* :30, AtomicI64 initialised to 1 (:101) *)
   events : list ievent;        (* :47 *)
   terminated : bool;           (* :49 *)
   exit_code : option Z;        (* :50 *)
   thread_cache : list Z;       (* :39, keys only *)
   module_info : bool;          (* :53, is_some *)
+  last_responded : option Z;   (* :57 last_responded_request *)
   wire : list msg
 }.
 
-Definition init_st : st := St 1 [] false None [] false [].
+Definition init_st : st := St 1 [] false None [] false None [].
 
 Definition set_events (ev : list ievent) (s : st) : st :=
-  St (server_seq s) ev (terminated s) (exit_code s) (thread_cache s) (module_info s) (wire s).
+  St (server_seq s) ev (terminated s) (exit_code s) (thread_cache s) (module_info s) (last_responded s) (wire s).
 Definition set_terminated (b : bool) (s : st) : st :=
-  St (server_seq s) (events s) b (exit_code s) (thread_cache s) (module_info s) (wire s).
+  St (server_seq s) (events s) b (exit_code s) (thread_cache s) (module_info s) (last_responded s) (wire s).
 Definition set_exit_code (c : option Z) (s : st) : st :=
-  St (server_seq s) (events s) (terminated s) c (thread_cache s) (module_info s) (wire s).
+  St (server_seq s) (events s) (terminated s) c (thread_cache s) (module_info s) (last_responded s) (wire s).
 Definition set_thread_cache (t : list Z) (s : st) : st :=
-  St (server_seq s) (events s) (terminated s) (exit_code s) t (module_info s) (wire s).
+  St (server_seq s) (events s) (terminated s) (exit_code s) t (module_info s) (last_responded s) (wire s).
 Definition set_module_info (b : bool) (s : st) : st :=
-  St (server_seq s) (events s) (terminated s) (exit_code s) (thread_cache s) b (wire s).
+  St (server_seq s) (events s) (terminated s) (exit_code s) (thread_cache s) b (last_responded s) (wire s).
+Definition set_last_responded (r : option Z) (s : st) : st :=
+  St (server_seq s) (events s) (terminated s) (exit_code s) (thread_cache s) (module_info s) r (wire s).
 
-(* next_seq (:131-134) then lock + write_message (:469-470 / :484-486), run by the
-   session thread alone *)
+(* fetch_add + write_message (:458-472 / :488-493), run by the session thread alone *)
 Definition send_raw (b : body) (s : st) : st :=
   St (server_seq s + 1) (events s) (terminated s) (exit_code s) (thread_cache s) (module_info s)
-     (wire s ++ [Msg (server_seq s) b]).
+     (last_responded s) (wire s ++ [Msg (server_seq s) b]).
 
-(* send_success / send_success_body / send_err / send_cancelled -> send_response_raw (:429-471) *)
+(* send_success / send_success_body / send_err / send_cancelled -> send_response_raw
+   (:427-476); :474 records the request as answered *)
 Definition send_response (rseq : Z) (cmd : N) (ok : bool) (s : st) : st :=
-  send_raw (Response rseq cmd ok) s.
-(* send_event / send_event_body -> send_event_raw (:473-487) *)
+  set_last_responded (Some rseq) (send_raw (Response rseq cmd ok) s).
+(* send_event / send_event_body -> send_event_raw (:478-494) *)
 Definition send_event (ev : N) (arg : Z) (s : st) : st := send_raw (Event ev arg) s.
 
-(* enqueue_event (:142-144) *)
+(* enqueue_event (:140-142) *)
 Definition enqueue (e : ievent) (s : st) : st := set_events (events s ++ [e]) s.
 
 Definition is_output (e : ievent) : bool := match e with IOutput => true | _ => false end.
@@ -132,11 +142,11 @@ Definition is_output (e : ievent) : bool := match e with IOutput => true | _ => 
 Definition send_one (e : ievent) (s : st) : st :=
   match ievent_body e with Some b => send_raw b s | None => s end.
 
-(* send_events (:280-427) *)
+(* send_events (:278-425) *)
 Definition send_events (filter : ievent -> bool) (drained : list ievent) (s : st) : st :=
   fold_left (fun s e => if filter e then send_one e s else s) drained s.
 
-(* emit_process_end (:207-226).  module_info.take(); one "thread exited" per cached thread;
+(* emit_process_end (:205-224).  module_info.take(); one "thread exited" per cached thread;
    the cache itself is NOT cleared.  (HashMap key order is unspecified; the list order
    stands for it.) *)
 Definition emit_process_end (s : st) : st :=
@@ -145,13 +155,13 @@ Definition emit_process_end (s : st) : st :=
             else s in
   fold_left (fun s tid => send_event EV_THREAD_EXITED tid s) (thread_cache s1) s1.
 
-(* the pre-scan of drain_events (:241-253): the last Exited wins *)
+(* the pre-scan of drain_events (:239-251): the last Exited wins *)
 Definition scan_exit (drained : list ievent) : option Z :=
   fold_left (fun acc e => match e with IExited c => Some c | _ => acc end) drained None.
 Definition scan_terminated (drained : list ievent) : bool :=
   existsb (fun e => match e with ITerminated => true | _ => false end) drained.
 
-(* drain_events (:228-278) *)
+(* drain_events (:226-276) *)
 Definition drain_events (s : st) : st :=
   let drained := events s in
   let s := set_events [] s in
@@ -180,7 +190,7 @@ Fixpoint dedup_z (l : list Z) : list Z :=
   | x :: t => if mem_z x t then dedup_z t else x :: dedup_z t
   end.
 
-(* refresh_threads_with_events (frame.rs:204-233) with [ids] = what thread_state() returned *)
+(* refresh_threads_with_events (frame.rs:204-233, unchanged) with [ids] = what thread_state() returned *)
 Definition refresh_threads (ids : list Z) (s : st) : st :=
   let existing := thread_cache s in
   let new_ids := dedup_z ids in
@@ -204,7 +214,7 @@ Inductive prim : Type :=
 | PSetModule (b : bool).            (* init.rs:177 *)
 
 (* a handler = the primitive calls it makes, then Ok(()) or Err; [s_cont] is dispatch's
-   Ok(bool): false only for terminate and disconnect (mod.rs:639-649) *)
+   Ok(bool): false only for terminate and disconnect (mod.rs:644-654) *)
 Record script : Type := Script { s_body : list prim; s_fail : bool; s_cont : bool }.
 
 Definition run_prim (rseq : Z) (cmd : N) (p : prim) (s : st) : st :=
@@ -221,35 +231,73 @@ Definition run_prim (rseq : Z) (cmd : N) (p : prim) (s : st) : st :=
 Definition run_body (rseq : Z) (cmd : N) (ps : list prim) (s : st) : st :=
   fold_left (fun s p => run_prim rseq cmd p s) ps s.
 
-(* mod.rs:673-679: a handler error becomes one more (error) response and the loop goes on *)
-Definition dispatch_one (rseq : Z) (cmd : N) (h : script) (s : st) : st * bool :=
+(* mod.rs:678-691.  :678 clears last_responded_request before every dispatch, so the test
+   of :684 means "this handler has answered".  A handler error makes the loop go on, and
+   - [guard = false] (before the repair): always one more (error) response;
+   - [guard = true] (now, :684): an error response unless
+     last_responded_request == Some(req.seq), in which case it is only logged.
+   (The field did not exist before the repair; clearing it when guard = false is invisible.) *)
+Definition guard_hit (rseq : Z) (s : st) : bool :=
+  match last_responded s with Some r => Z.eqb r rseq | None => false end.
+Definition dispatch_one_gen (guard : bool) (rseq : Z) (cmd : N) (h : script) (s : st) : st * bool :=
+  let s := set_last_responded None s in
   let s := run_body rseq cmd (s_body h) s in
-  if s_fail h then (send_response rseq cmd false s, true) else (s, s_cont h).
+  if s_fail h
+  then (if guard && guard_hit rseq s then (s, true) else (send_response rseq cmd false s, true))
+  else (s, s_cont h).
+Definition dispatch_one : Z -> N -> script -> st -> st * bool :=
+  dispatch_one_gen RUN_LOOP_SINGLE_RESPONSE_GUARD.
+
+(* the intermediate repair (commit 4335108, superseded by ae66bdd): the guard without the
+   reset of :678, i.e. a comparison with the seq of the last answered REQUEST *)
+Definition dispatch_one_seqguard (rseq : Z) (cmd : N) (h : script) (s : st) : st * bool :=
+  let s := run_body rseq cmd (s_body h) s in
+  if s_fail h
+  then (if guard_hit rseq s then (s, true) else (send_response rseq cmd false s, true))
+  else (s, s_cont h).
 
 Inductive input : Type :=
 | InReq (rseq : Z) (cmd : N) (h : script)   (* a decodable request envelope and what its handler does *)
-| InNotRequest                              (* type != "request": skipped (mod.rs:670-672) *)
-| InBadEnvelope.                            (* serde_json::from_value fails: run returns Err (mod.rs:669) *)
+| InNotRequest                              (* type != "request": skipped (mod.rs:675-677) *)
+| InBadEnvelope.                            (* serde_json::from_value fails: run returns Err (mod.rs:674) *)
 
-(* run (mod.rs:661-685); the end of the input list is read_message failing on EOF *)
-Fixpoint run (ins : list input) (s : st) : st :=
+(* run (mod.rs:666-697); the end of the input list is read_message failing on EOF *)
+Fixpoint run_gen (guard : bool) (ins : list input) (s : st) : st :=
   let s := drain_events s in
   match ins with
   | [] => s
   | InBadEnvelope :: _ => s
-  | InNotRequest :: t => run t s
+  | InNotRequest :: t => run_gen guard t s
   | InReq rseq cmd h :: t =>
-      let '(s', cont) := dispatch_one rseq cmd h s in
-      if cont then run t s' else s'
+      let '(s', cont) := dispatch_one_gen guard rseq cmd h s in
+      if cont then run_gen guard t s' else s'
+  end.
+Definition run : list input -> st -> st := run_gen RUN_LOOP_SINGLE_RESPONSE_GUARD.
+(* the run loop of the intermediate repair *)
+Fixpoint run_seqguard (ins : list input) (s : st) : st :=
+  let s := drain_events s in
+  match ins with
+  | [] => s
+  | InBadEnvelope :: _ => s
+  | InNotRequest :: t => run_seqguard t s
+  | InReq rseq cmd h :: t =>
+      let '(s', cont) := dispatch_one_seqguard rseq cmd h s in
+      if cont then run_seqguard t s' else s'
   end.
 
 Definition bodies (s : st) : list body := map m_body (wire s).
 
 (* ---- real handlers as scripts (line numbers: control.rs unless said otherwise) ---- *)
 
-(* handle_continue :421-437 with self.debugger == None, or with continue_debugee_with_reason
-   failing (ProcessNotStarted before configurationDone / after exit): the success response
-   of :429 is already out when :431-435 returns Err *)
+(* handle_continue :421-440 with self.debugger == None: since 4335108 the early check
+   :422-424 answers with send_err and returns Ok *)
+Definition h_continue_no_debugger : script := Script [PRespond false] false true.
+(* the same request before 4335108: success response, [continued], then Err *)
+Definition h_continue_no_debugger_old : script :=
+  Script [PEnqueue IContinued; PRespond true; PDrain] true true.
+(* handle_continue with a debugger whose continue_debugee_with_reason fails (:438,
+   ProcessNotStarted before configurationDone / after exit, or a ptrace error): the success
+   response of :432 and the drain of :433 are already out when :438 returns Err *)
 Definition h_continue_err : script :=
   Script [PEnqueue IContinued; PRespond true; PDrain] true true.
 (* handle_continue when the debuggee runs to exit: emit_stop_reason :350-354 *)
@@ -258,10 +306,10 @@ Definition h_continue_exit (code : Z) : script :=
 (* handle_continue, stop at a breakpoint with thread list [ids] *)
 Definition h_continue_stop (ids : list Z) : script :=
   Script [PEnqueue IContinued; PRespond true; PDrain; PRefreshThreads ids; PEnqueue IStopped; PDrain] false true.
-(* handle_next, ProcessExit branch :526-535 *)
+(* handle_next, ProcessExit branch :529-538 (stepIn :569-578, stepOut :609-618) *)
 Definition h_next_exit (code : Z) : script :=
   Script [PEnqueue IContinued; PRespond true; PEnqueue (IExited code); PDrain] false true.
-(* handle_restart :470-487 / handle_configuration_done init.rs:376-378 *)
+(* handle_restart :473-490 / handle_configuration_done init.rs:376-378 *)
 Definition h_start_stop (ids : list Z) : script :=
   Script [PRespond true; PRefreshThreads ids; PEnqueue IStopped; PDrain] false true.
 (* handle_launch init.rs:192-238 *)
@@ -269,11 +317,13 @@ Definition h_launch : script :=
   Script [PResetLatch; PEnqueue IProgressStart; PEnqueue ICapabilities; PDrain;
           PEnqueue IProcess; PSetModule true; PEnqueue IModule; PEnqueue ILoadedSource;
           PEnqueue IProgressUpdate; PEnqueue IProgressEnd; PRespond true; PDrain] false true.
+(* handle_launch without arguments.program: init.rs:197-201 fails before anything is sent *)
+Definition h_launch_no_program : script := Script [] true true.
 (* handle_initialize init.rs:23-75 *)
 Definition h_initialize : script := Script [PRespond true; PInitialized] false true.
-(* handle_terminate :1032-1037, dispatch returns Ok(false) *)
+(* handle_terminate :1035-1040, dispatch returns Ok(false) *)
 Definition h_terminate : script := Script [PRespond true; PEnqueue ITerminated; PDrain] false false.
-(* handle_disconnect :1039-1053 with terminateDebuggee=false and detach() failing at :1050 *)
+(* handle_disconnect :1042-1056 with terminateDebuggee=false and detach() failing at :1053 *)
 Definition h_disconnect_detach_err : script := Script [PRespond true] true false.
 (* any handler that answers once *)
 Definition h_simple (ok : bool) : script := Script [PRespond ok] false true.
@@ -346,26 +396,33 @@ Fixpoint run_sched (sched : list nat) (c : cstate) : cstate :=
 Definition init_c (progs : list (list action)) : cstate :=
   CState 1 None [] (map (fun p => Thread p 0) progs).
 
-(* the code: sequence number taken BEFORE the lock.  Session thread: mod.rs:458-470
-   (struct field [seq: self.next_seq()] is evaluated at :459, lock at :469) and :483-486;
-   forwarders: :546-557 and :575-586. *)
+(* the code before 90c36fc: sequence number taken BEFORE the lock (session thread:
+   [seq: self.next_seq()] evaluated before [self.io.lock()] in send_response_raw and
+   send_event_raw; forwarders: fetch_add before the inner block that locks) *)
 Definition send_block (b : body) : list action := [AAlloc; ALock; AWrite b; AUnlock].
-(* the run loop holds the transport lock while it reads a request (mod.rs:665-668) *)
+(* the run loop holds the transport lock while it reads a request (mod.rs:670-673) *)
 Definition read_block : list action := [ALock; AUnlock].
-(* the shape of a repair: number taken under the lock *)
+(* the code now: number taken under the lock.  send_response_raw: lock :458, fetch_add
+   :460-462, write :472, drop :473; send_event_raw: lock :488, fetch_add :489-491, write :493;
+   forwarders: lock :554 / :582, fetch_add :555 / :583, write, end of block *)
 Definition fixed_block (b : body) : list action := [ALock; AAlloc; AWrite b; AUnlock].
+(* which of the two the source uses is read off the source by the translator *)
+Definition code_send_block (b : body) : list action :=
+  if SEQ_ALLOC_UNDER_LOCK then fixed_block b else send_block b.
 
 (* a thread given as its list of blocks: Some b = send b, None = read a request *)
 Definition compile_real (l : list (option body)) : list action :=
   flat_map (fun o => match o with Some b => send_block b | None => read_block end) l.
 Definition compile_fixed (l : list (option body)) : list action :=
   flat_map (fun o => match o with Some b => fixed_block b | None => read_block end) l.
+Definition compile_code (l : list (option body)) : list action :=
+  flat_map (fun o => match o with Some b => code_send_block b | None => read_block end) l.
 
 (* the session thread's program for a given sequential run: one send block per message it
    put on the wire (its control flow never reads the shared counter or the wire) *)
 Definition session_blocks (ins : list input) : list (option body) :=
   map Some (bodies (run ins init_st)).
-(* a forwarder that reads [n] lines: mod.rs:538-562 *)
+(* a forwarder that reads [n] lines: mod.rs:545-570, :573-598 *)
 Definition forwarder_blocks (n : nat) : list (option body) := repeat (Some (Event EV_OUTPUT 0)) n.
 
 (* ================================================================== *)
